@@ -60,6 +60,11 @@ DIVERGENCES: Dict[str, Tuple[Dict[str, str], str, str]] = {
         "null-in-reversed-window-order-key",
         "ordered window with a null in a reversed order_by column: Polars sorts nulls first, Pandas and SQLite last",
     ),
+    "first-last-skipna": (
+        {"pandas": "pandas_base.PandasModelBase._extend_step"},
+        "first-last-over-null-value",
+        "x.first()/x.last() in an ordered window whose first/last row has a null value: Pandas (groupby.transform) returns the first/last NON-NULL value, Polars the value of the first/last row (null)",
+    ),
     "cum-null": (
         {"pandas": "pandas_base.PandasModelBase._extend_step"},
         "cumulative-aggregate-over-null-value",
@@ -341,16 +346,22 @@ def eval_expr(expr: str, row: Dict[str, Any]) -> Any:
     return V.lift(res).v
 
 
-_AGG_RE = re.compile(r"^\(?(\w+)\)?\.(\w+)\(\)$")
+_AGG_RE = re.compile(r"^\(?(-?\w+)\)?\.(\w+)\((-?\d*)\)$")
 
 
 def _parse_agg(expr: str) -> Optional[Tuple[str, Optional[str]]]:
+    """(method, argument) of an aggregate / window term; 'x.shift(2)' -> ('shift:2', 'x')."""
     e = expr.strip()
     if e in ("_size()", "_row_number()", "_count()"):
         return e[:-2], None
     m = _AGG_RE.match(e)
-    if m and m.group(2) in ("sum", "mean", "count", "max", "min", "size", "cumsum", "cummax", "cummin", "shift", "rank"):
-        return m.group(2), m.group(1)
+    if m and m.group(2) in ("sum", "mean", "count", "max", "min", "size", "cumsum", "cummax", "cummin", "shift", "rank", "first", "last"):
+        meth = m.group(2)
+        if m.group(3):
+            if meth != "shift":
+                return None
+            meth = "shift:" + m.group(3)
+        return meth, m.group(1)
     return None
 
 
@@ -472,6 +483,7 @@ class SqlStructure:
         self.raise_flag: Optional[str] = None  # divergence responsible for it
         self.pruned: Set[int] = set()  # id() of ungrouped ProjectNodes left without any aggregate
         self.select_ignored: Set[int] = set()  # id() of SelectColumnsNodes whose selection the SQL ignores
+        self.table_star: bool = False  # a table asked for all its declared columns reaches the result via SELECT *
 
 
 class _StructRaise(Exception):
@@ -525,6 +537,8 @@ def analyse_sql_structure(root) -> SqlStructure:
             using = set(using)
             was_none = False
         if nm == "TableDescription":
+            if star and set(using) == set(node.column_names):
+                st.table_star = True
             return desc("table", terms=set(using))
         if nm == "ExtendNode":
             using = using | set(node.partition_by) | set(node.order_by) | set(node.reverse)
@@ -557,7 +571,7 @@ def analyse_sql_structure(root) -> SqlStructure:
             return desc("unary", terms=(None if was_none else set(sub_using)), suffix=True)
         if nm == "SelectColumnsNode":
             sub_using = set(node.columns_used_from_sources(using=using)[0])
-            sub = walk(node.sources[0], sub_using, cause)
+            sub = walk(node.sources[0], sub_using, cause, star=star)
             if sub["terms"] is not None and not isinstance(sub["terms"], list):
                 if any(k not in sub["terms"] for k in node.column_selection if k in sub_using):
                     fail("KeyError", "unmodelled")
@@ -738,6 +752,8 @@ class Model:
                 raise ModelRaise("model: unsupported window expression " + e)
             meth, arg = pa
             ntypes[k] = "int" if meth in ("count", "size", "_size", "_row_number") else ("float" if meth in ("mean", "rank") else types.get(arg, "float"))
+            if arg is not None and arg.lstrip("-").isdigit():
+                ntypes[k] = "int"
             for gk, idxs in groups.items():
                 grows = [rows[j] for j in idxs]
                 if be == "pandas" and "window-null-partition" in self.D and part and _has_null(grows[0], part):
@@ -764,9 +780,20 @@ class Model:
                             out[j][k] = None
                         else:
                             out[j][k] = acc
-                elif meth == "shift":
+                elif meth.startswith("shift"):
+                    lag = int(meth.split(":")[1]) if ":" in meth else 1
                     for pos, j in enumerate(seq):
-                        out[j][k] = vals[pos - 1] if pos > 0 else None
+                        src = pos - lag
+                        out[j][k] = vals[src] if 0 <= src < len(vals) else None
+                elif meth in ("first", "last"):
+                    # R: the value of the first / last row of the partition in window order (nulls included);
+                    # Pandas (groupby.transform('first'/'last')) takes the first / last NON-NULL value
+                    cand = vals if meth == "first" else list(reversed(vals))
+                    if be == "pandas" and "first-last-skipna" in self.D:
+                        cand = [v for v in cand if v is not None]
+                    a = cand[0] if cand else None
+                    for j in idxs:
+                        out[j][k] = a
                 elif meth == "rank":
                     # average rank (ascending) among the non-null values of the partition; null -> null
                     nnv = [v for v in vals if v is not None]
